@@ -202,7 +202,7 @@ def run_shard(desc, ctx):
     try:
         if desc["kind"] == "random":
             for _ in range(desc["n"]):
-                check_spec(ctx, gen_random(rng), hook)
+                check_spec(ctx, G.maybe_prior(rng, gen_random(rng)), hook)
         else:
             for n, nrow, st, hm in desc["cells"]:
                 ctx.count("grid_cells")
